@@ -102,6 +102,49 @@ Theorem C13_lookup_sample :
 Proof. intros c t (_ & _ & _ & Hs). exact (at_first_spec sp_time _ t Hs). Qed.
 Print Assumptions C13_lookup_sample.
 
+(* T13c: for chronologically increasing adds (strictly later than everything
+   stored), the stored difficulty / effect / sample list is exactly the input
+   with every point dropped that repeats the last KEPT point (the default
+   before the first difficulty / effect point; nothing before the first sample
+   point) -- so no stored point repeats its predecessor. *)
+From RM Require Import Proofs.ControlPointsChrono.
+
+Theorem C13_chronological_difficulty_adds :
+  forall ps c, cp_sorted c -> chrono dp_time ps ->
+  Forall (fun p => Forall (fun q => K dp_time q < K dp_time p) (cp_difficulty c)) ps ->
+  add_difficulties c ps =
+  Done (mkCP (cp_timing c)
+             (cp_difficulty c ++ compress dp_redundant (last_opt (cp_difficulty c))
+                                          (fun p => dp_redundant p dflt_dp) ps)
+             (cp_effect c) (cp_sample c)).
+Proof. exact add_difficulties_chrono. Qed.
+Print Assumptions C13_chronological_difficulty_adds.
+
+Theorem C13_chronological_effect_adds :
+  forall ps c, cp_sorted c -> chrono ep_time ps ->
+  Forall (fun p => Forall (fun q => K ep_time q < K ep_time p) (cp_effect c)) ps ->
+  add_effects c ps =
+  Done (mkCP (cp_timing c) (cp_difficulty c)
+             (cp_effect c ++ compress ep_redundant (last_opt (cp_effect c))
+                                      (fun p => ep_redundant p dflt_ep) ps)
+             (cp_sample c)).
+Proof. exact add_effects_chrono. Qed.
+Print Assumptions C13_chronological_effect_adds.
+
+Theorem C13_chronological_sample_adds :
+  forall ps c, cp_sorted c -> chrono sp_time ps ->
+  Forall (fun p => Forall (fun q => K sp_time q < K sp_time p) (cp_sample c)) ps ->
+  add_samples c ps =
+  Done (mkCP (cp_timing c) (cp_difficulty c) (cp_effect c)
+             (cp_sample c ++ compress sp_redundant (last_opt (cp_sample c)) (fun _ => false) ps)).
+Proof. exact add_samples_chrono. Qed.
+Print Assumptions C13_chronological_sample_adds.
+
+Theorem C13_compressed_list_never_repeats :
+  forall P (red : P -> P -> bool) prev dr ps, no_repeat red prev dr (compress red prev dr ps).
+Proof. exact @compress_no_repeat. Qed.
+Print Assumptions C13_compressed_list_never_repeats.
+
 (* ---------- non-vacuity and recorded readings ---------- *)
 
 Definition f (n : Z) : F64 := D.of_Z n.
